@@ -9,12 +9,14 @@ def dispatch_run(profile, mask, dmask, nq, nt, extra=None):
 
 BUILD_SCOPES = {"parse": "00000000", "dispatch": "00100000", "complete": "01100000", "all": "11100000"}
 
-def build_run(nq, nt, profile="build", scope="parse"):
-    # validates the model of the definition API, never an observable of a property.  The first three
+def build_run(nq, nt, profile="build", scope="parse", role="tie"):
+    # validates the model of the definition API; an observable of a property only for C12 and C06, whose
+    # clauses about the environment variable / SetCalled are about the state the definition leaves
+    # (value, Called, CalledAs before any command line is parsed).  The first three
     # mask characters select the field groups compared beyond what the parser reads: help-only,
     # completion-only, dispatch-only fields (Run/Check.v, bmask): a property is not disturbed by a
     # change of the definition code that only touches fields it never reads.
-    return dict(kind="build", profile=profile, mask=BUILD_SCOPES[scope], n_quick=nq, n_thorough=nt, extra=[], role="tie")
+    return dict(kind="build", profile=profile, mask=BUILD_SCOPES[scope], n_quick=nq, n_thorough=nt, extra=[], role=role)
 
 def tie(run):
     """marks a correspondence as model validation: a difference is reported as a broken tie, not as
@@ -55,7 +57,7 @@ PROPS = {
         rule="every prefix of every key of colliding name sets; non-trivial = name set has two keys sharing a prefix and argv has an option token",
     ),
     "C06": dict(
-        runs=[parse_run("alias", "00001100", 5000, 200000), parse_run("general", "00001100", 2000, 100000), build_run(1500, 60000, "build")],
+        runs=[parse_run("alias", "00001100", 5000, 200000), parse_run("general", "00001100", 2000, 100000), build_run(1500, 60000, "build", role="decide")],
         rule="definitions where 90% of the options have 1-3 aliases, argv choosing a key per occurrence; non-trivial = some option has an alias and argv has >= 2 option tokens; plus the access-path oracle (pointer, *Var target, Value/Called/CalledAs through every key) on every case",
         assumptions=["pointer / *Var / Value(x) agreement is by construction in the model (one store entry per option); on the real library it is established by the access-path oracle of the harness"],
     ),
@@ -117,7 +119,7 @@ PROPS = {
         trusted_extra=["DefaultStr of numeric defaults (fmt %d %f %t) and HelpArgName are taken from the dump, not recomputed"],
     ),
     "C12": dict(
-        runs=[build_run(4000, 150000, "env"), parse_run("env", "10001100", 4000, 150000)],
+        runs=[build_run(4000, 150000, "env", role="decide"), parse_run("env", "10001100", 4000, 150000)],
         coq_sample=10,
         rule="bool/string/int/float (plain and optional) options bound to environment variables x variable texts {valid, invalid, empty, unset, mixed case} x option present/absent on the command line; the definition is executed with the process environment set and the resulting option objects are compared with the model's builder, then Parse is compared; non-trivial = an option is bound to a set variable",
         trusted_extra=["the process environment is set by the harness around the definition (os.Setenv), the model gets the same table"],
